@@ -331,12 +331,13 @@ def weiBinnedFunc (h : Hist α) (bins : List (Int × Nat)) (mu : α) (p : Array 
   | none => one / zero
   | some logL => Neg.neg logL
 
-/-- `esl_wei_FitCompleteBinned()` (`is_tailfit` is only set by `SetExpectedTail`, not modelled: false) → `(mu, lambda, tau)` -/
-def weiFitCompleteBinned (h : Hist α) : FitRes α :=
+/-- `esl_wei_FitCompleteBinned()` → `(mu, lambda, tau)`; `tailfit` = `h->is_tailfit` (set by `esl_histogram_SetExpectedTail`, kept in the
+    separate record `Expect` of `HistExpect.lean`) -/
+def weiFitCompleteBinned (h : Hist α) (tailfit : Bool) : FitRes α :=
   match binRange h with
   | none => .fault
   | some bins =>
-    let mu := if h.isRounded then h.lbound h.imin else h.xmin
+    let mu := if tailfit then h.phi else if h.isRounded then h.lbound h.imin else h.xmin
     let mean := bins.foldl (fun (acc : α) ic => acc + ofInt ic.2 * (h.lbound ic.1 + (0.5 : α) * h.w)) zero
     let mean := mean / ofInt h.no
     let lambda := one / (mean - mu)
